@@ -53,7 +53,18 @@ Inductive rawdyn := RBytes | RRsaPriv | REcdsaPriv | REd25519Priv
 (* [unit_prime]: an *rsa.PrivateKey with a prime factor equal to 1 — x509.MarshalPKCS1PrivateKey
    calls Precompute, which divides by p-1 (panic "division by zero").
    [rsa_valid]: the Validate() method of the rsa.PrivateKey returns nil (the fix calls it first). *)
-Definition serialize_key (v : variant) (raw : option rawdyn) (unit_prime rsa_valid : bool) : mout :=
+(* an *ecdsa.PrivateKey as far as marshalling is concerned: the private scalar [ec_d] (>= 0, the
+   JWK parser takes any byte string), the order [ec_n] of the curve's group and the curve's byte
+   size [ec_size]. x509.MarshalPKCS8PrivateKey writes the scalar with
+   D.FillBytes(make([]byte, size)), which panics ("math/big: buffer too small to fit value")
+   when the scalar needs more than [size] bytes. The fix refuses a scalar outside [1, n-1]. *)
+Definition ec_fits (d size : Z) : bool := d <? 256 ^ size.
+Definition ec_scalar_valid (d n : Z) : bool := (0 <? d) && (d <? n).
+
+(* [Original] = before the two fix: commits that validate the key first (RSA: Validate(); ECDSA:
+   scalar in range), [Fixed] = after both. *)
+Definition serialize_key (v : variant) (raw : option rawdyn) (unit_prime rsa_valid : bool)
+    (ec_d ec_n ec_size : Z) : mout :=
   match raw with
   | None => MErr
   | Some RBytes => MOk
@@ -61,6 +72,9 @@ Definition serialize_key (v : variant) (raw : option rawdyn) (unit_prime rsa_val
   | Some RRsaPriv =>
       if is_fixed v && negb rsa_valid then MErr    (* the fix: Validate() first *)
       else if unit_prime then MPanic else MAny
+  | Some REcdsaPriv =>
+      if is_fixed v && negb (ec_scalar_valid ec_d ec_n) then MErr   (* the fix: 0 < D < N first *)
+      else if negb (ec_fits ec_d ec_size) then MPanic else MAny
   | Some _ => MAny                               (* x509.Marshal… decides *)
   end.
 
